@@ -492,6 +492,18 @@ def gen_peak_jobs(rng, n):
             caller = rng.choice(["same", "s32"])
         name = "p%04d-%s-%s-c%d-%s%d-%s-%s-%s" % (k, container, enc, ch, caller, scale, shape, part, valmode)
         jobs.append(gen_job(rng, name, container, enc, ch, caller, scale, shape, part, valmode))
+    # every converting writer (host_write_s2f/i2f/d2f, s2d/i2d/f2d) with a call longer than the staging buffer and a channel
+    # count that does not divide 2048 / 1024: always present, whatever the seed (the class of the repaired KF-C18-STAGING-MISALIGN)
+    k = n
+    for enc in ("f32", "f64"):
+        for caller in ("otherfloat", "s16", "s32"):
+            for ch in (3, 5, 6):
+                container = conts[k % 6]
+                scale = k % 2
+                # the maximum of every channel sits in the last frame, i.e. in the last staging buffer of the long call
+                name = "p%04d-%s-%s-c%d-%s%d-%s-%s-%s" % (k, container, enc, ch, caller, scale, "last", "big", "stagefix")
+                jobs.append(gen_job(rng, name, container, enc, ch, caller, scale, "last", "big", "exact32" if enc == "f64" else "any"))
+                k += 1
     return jobs
 
 
@@ -548,46 +560,52 @@ def check_peak_job(job, obs, calls=None):
     ch, enc = job.ch, job.enc
     truth = true_peaks(enc, ch, job.file_items(calls))
     probs = []
-    exp_d, tiny_d = [], []
+    exp_d, exp_r = [], []
     for c, (m, pos, bb) in enumerate(truth):
         # the maximum as a double (exact: the file type is binary32 or binary64)
         d = widen(bb) if enc == "f32" else bb
         exp_d.append(d)
-        # float32_le_write / float32_be_write (header writer) leave 0 for |x| < 1e-30: candidate class "peak-tiny"
-        tiny = 0 < m < TINY and f32b(b2f64(d)) != 0       # (a double that rounds to 0.0f is the NARROW class's business)
-        tiny_d.append(0 if tiny else d)
+        # the chunk field is a binary32 (PEAK chunk definition): a DOUBLE maximum is stored rounded to nearest even;
+        # float32_le_write / float32_be_write leave 0 for |x| < FLT_MIN (zero and binary32 subnormals): class "peak-tiny"
+        r32 = f32b(b2f64(d))
+        tiny = m > 0 and r32 < 0x00800000
+        st32 = 0 if tiny else r32
+        exp_r.append(widen(st32))
         if "vals" in obs and len(obs["vals"]) == ch:
-            if Fraction(b2f32(obs["vals"][c])) != m or obs["vals"][c] >> 31:
-                probs.append(("peak-tiny" if tiny and obs["vals"][c] == 0 else "peak",
-                              "channel %d: PEAK value %s (=%r), true max |x| is %s (=%r, binary64 %s)" % (c, hx32(obs["vals"][c]), b2f32(obs["vals"][c]),
-                                                                                                   hx32(f32b(b2f64(d))), float(m), hx64(d))))
+            if obs["vals"][c] != st32:
+                probs.append(("peak", "channel %d: PEAK value %s (=%r), the binary32 of the true max |x| is %s (max=%r, binary64 %s)"
+                              % (c, hx32(obs["vals"][c]), b2f32(obs["vals"][c]), hx32(st32), float(m), hx64(d))))
+            elif tiny:
+                probs.append(("peak-tiny", "channel %d: PEAK value 00000000, true max |x| is %r (binary64 %s, binary32 %s is below FLT_MIN)"
+                              % (c, float(m), hx64(d), hx32(r32))))
             if obs["poss"][c] != pos:
                 probs.append(("peak", "channel %d: PEAK position %d, first frame holding the maximum is %d" % (c, obs["poss"][c], pos)))
-    sig = max(exp_d, key=lambda b: b2f64(b))
     for side in "wr":
-        # write handle: the exact maximum; after re-open: what the chunk can hold (binary32), which is the same number when the property holds
+        # write handle: the exact maximum; after re-open: what the chunk holds (the binary32, widened)
+        exp = exp_d if side == "w" else exp_r
+        sig = max(exp, key=lambda b: b2f64(b))
         g = obs.get(side + "1045")
         if g is None:
             continue
         ret, err, ds = g
         if ret != 1 or err != "0":
             probs.append(("cmdret", "%s handle: SFC_GET_MAX_ALL_CHANNELS returned %d err=%s" % ("write" if side == "w" else "read", ret, err)))
-        elif ds != exp_d:
-            probs.append(("peak-tiny" if side == "r" and ds == tiny_d else "peak", "%s handle: SFC_GET_MAX_ALL_CHANNELS = [%s], true maxima [%s]" % ("write" if side == "w" else "read", ",".join(map(hx64, ds)), ",".join(map(hx64, exp_d)))))
+        elif ds != exp:
+            probs.append(("peak", "%s handle: SFC_GET_MAX_ALL_CHANNELS = [%s], expected [%s]" % ("write" if side == "w" else "read", ",".join(map(hx64, ds)), ",".join(map(hx64, exp)))))
         ret, err, ds = obs.get(side + "1044")
         if ret != 1 or err != "0":
             probs.append(("cmdret", "%s handle: SFC_GET_SIGNAL_MAX returned %d err=%s" % ("write" if side == "w" else "read", ret, err)))
         elif ds != [sig]:
-            probs.append(("peak-tiny" if side == "r" and ds == [max(tiny_d, key=b2f64)] else "peak", "%s handle: SFC_GET_SIGNAL_MAX = %s, true maximum %s" % ("write" if side == "w" else "read", ",".join(map(hx64, ds)), hx64(sig))))
+            probs.append(("peak", "%s handle: SFC_GET_SIGNAL_MAX = %s, expected %s" % ("write" if side == "w" else "read", ",".join(map(hx64, ds)), hx64(sig))))
     return probs
 
 
 def classify(job, obs, calls=None):
     """known-finding class of a value/position mismatch: the id, or None. The signature must be reproduced by the literal
     re-execution of the code with exactly the defect(s) of the class switched on."""
+    # KF-C18-DOUBLE-NARROW and KF-C18-STAGING-MISALIGN are repaired: nothing in those classes is waived any more
+    return None, ""
     inn, ins = job.in_narrow(calls), job.in_staging(calls)
-    if not (inn or ins) or "vals" not in obs:
-        return None, ""
     got = list(zip(obs["vals"], obs["poss"]))
     gotw = obs.get("w1045", (0, "", None))[2]
     for (n, m, kf) in ((True, False, KF_NARROW), (False, True, KF_STAGING), (True, True, KF_STAGING)):
@@ -626,8 +644,8 @@ def compare_model(job, obs, mline):
     elif obs["chunk"].hex() != kv["chunk"]:
         probs.append("PEAK chunk bytes: implementation %s model %s" % (obs["chunk"].hex(), kv["chunk"]))
     mp_w = mp
-    # after re-open the values come from the chunk, where float32_le/be_write left 0 for |x| < 1e-30 (Sf.Peak.wrF32)
-    mp_r = [((0 if abs(b2f64(v)) < 1e-30 else v), p) for v, p in mp]
+    # after re-open the values come from the chunk, a binary32 where float32_le/be_write left 0 for |x| < FLT_MIN (Sf.wrF32)
+    mp_r = [((0 if f32b(b2f64(v)) % 2 ** 31 < 0x00800000 else widen(f32b(b2f64(v)))), p) for v, p in mp]
     for side in "wr":
         mp = mp_w if side == "w" else mp_r
         g = obs.get(side + "1045")
@@ -703,8 +721,8 @@ def peak_campaign(ctx, quick=True, njobs=None, model=True):
         soft = [p for p in probs if p[0] == "peak"]
         tinyp = [p for p in probs if p[0] == "peak-tiny"]
         if tinyp:
-            # class KF-C18-TINY-FLUSH: every mismatching channel has 0 < max < 1e-30, chunk / re-open value 0, write handle correct
-            findings.append(Finding("truth", job.name, "maximum below 1e-30 stored as 0 (float32_le_write/float32_be_write return early): " + "; ".join(t for _, t in tinyp[:4]), script, kf=KF_TINY, job=job, cat="peak-tiny"))
+            # class KF-C18-TINY-FLUSH: the channel's maximum is non-zero but its binary32 is subnormal / zero; chunk value 0, everything else as expected
+            findings.append(Finding("truth", job.name, "non-zero maximum below FLT_MIN stored as 0 (float32_le_write/float32_be_write return early): " + "; ".join(t for _, t in tinyp[:4]), script, kf=KF_TINY, job=job, cat="peak-tiny"))
             stats["truth-mismatch:peak-tiny"] += 1
         if hard:
             findings.append(Finding("truth", job.name, "; ".join(t for _, t in hard[:4]), script, job=job, cat=hard[0][0]))
@@ -732,7 +750,7 @@ def peak_campaign(ctx, quick=True, njobs=None, model=True):
                         text, fscript = "; ".join(sp[:6]) + " (shrunk from %d calls / %d frames)" % (len(job.calls), job.tags["frames"]), sj.script()
             findings.append(Finding("truth", job.name, text, fscript, kf=kf, job=job, cat="peak"))
             stats["truth-mismatch:%s" % (kf or "unclassified")] += 1
-        if ml is not None and stale_swapped(job):
+        if False and ml is not None and stale_swapped(job):      # (the repaired writers never look at stale staging memory)
             stats["model_skipped_stale_swapped"] += 1
         elif ml is not None:
             cp = compare_model(job, obs, ml)
@@ -999,10 +1017,10 @@ def calc_campaign(ctx, quick=True, model=True, route_skip=(0x16,)):
                 stats["rw_stream_formats"].append(name)
                 continue
             kind = "crash" if cat == "crash" else "truth"
-            kf = KF_CALC_RW if (meta["mode"] == "rw" and rw_block(f) and cat.endswith("-rwseek")) else None
+            kf = None       # KF-C18-CALC-RDWR-BLOCK is repaired: PAF24 / SDS rw handles are judged like every other format
             findings.append(Finding(kind, name, "%s ch=%d frames=%d: " % (f.name, ch, F) + "; ".join(texts[:4]), t, kf=kf, cat=cat))
             stats["finding:" + cat] += 1
-        if results and model and meta["mode"] == "rw" and rw_block(f):
+        if False:
             stats["model_skipped_rw_block"] += 1      # the scan does not start at frame 0 there (KF-C18-CALC-RDWR-BLOCK): no stream to hand to the model
         elif results and model:
             for norm in (0, 1):
